@@ -159,3 +159,16 @@ A(V("c06-split-boundary", "C06", "ttLib/tables/otTables.py", "        newGlyphs 
 A(V("c06-split-move-lost", "C06", "ttLib/tables/otTables.py", "        newSubTable.alternates[key] = item[1]\n        del oldSubTable.alternates[key]", "        del oldSubTable.alternates[key]", "F23"))
 A(V("c06-promote-first-only", "C06", "ttLib/tables/otTables.py", "                lookup.SubTable[si] = extSubTable\n                ok = 1", "                lookup.SubTable[0] = extSubTable\n                ok = 1", "C06-loop"))
 A(V("c06-dedup-ignores-size", "C06", OB, "        return self.subWriter == other.subWriter and self.offsetSize == other.offsetSize", "        return self.subWriter == other.subWriter", "C06-dedup"))
+
+# ---- C04 -------------------------------------------------------------------
+SFW = "ttLib/sfnt.py"
+A(V("c04-dep-dropped", "C04", "ttLib/tables/_h_e_a_d.py", '    dependencies = ["maxp", "loca", "CFF ", "CFF2"]', '    dependencies = ["maxp", "CFF ", "CFF2"]', "F10"))
+A(V("c04-hhea-dep-dropped", "C04", "ttLib/tables/_h_h_e_a.py", '    dependencies = ["hmtx", "glyf", "CFF ", "CFF2"]', '    dependencies = ["glyf", "CFF ", "CFF2"]', "F10"))
+A(V("c04-align-2", "C04", SFW, "                paddedOff = (off + 3) & ~3", "                paddedOff = (off + 1) & ~1", "ALIGN"))
+A(V("c04-dir-unsorted", "C04", SFW, "        tables = sorted(self.tables.items())\n        if len(tables) != self.numTables:", "        tables = list(self.tables.items())\n        if len(tables) != self.numTables:", "DIR"))
+A(V("c04-checksum-offset", "C04", SFW, '        self.file.seek(self.tables["head"].offset + 8)', '        self.file.seek(self.tables["head"].offset + 12)', "CONST"))
+A(V("c04-searchrange-item", "C04", SFW, "                self.numTables, 16\n            )\n            directory = sstruct.pack(sfntDirectoryFormat, self)", "                self.numTables, 20\n            )\n            directory = sstruct.pack(sfntDirectoryFormat, self)", "CONST"))
+A(V("c04-head-window", "C04", SFW, '            entry.checkSum = calcChecksum(data[:8] + b"\\0\\0\\0\\0" + data[12:])\n            self.headTable = data', '            entry.checkSum = calcChecksum(data[:4] + b"\\0\\0\\0\\0" + data[8:])\n            self.headTable = data', "CONST"))
+A(V("c04-checksum-of-other-data", "C04", SFW, "            entry.checkSum = calcChecksum(data)\n        entry.saveData(self.file, data)", "            entry.checkSum = calcChecksum(data.rstrip(b\"\\0\"))\n        entry.saveData(self.file, data)", "DIR"))
+A(V("c04-vhea-diverged", "C04", "ttLib/tables/_v_h_e_a.py", "                boundsHeightDict[name] = g.yMax - g.yMin\n", "                boundsHeightDict[name] = g.yMax - g.yMin + 1\n", "F22-hv"))
+A(V("c04-woff2-checksum-diverged", "C04", "ttLib/woff2.py", "        checksumadjustment = (0xB1B0AFBA - checksum) & 0xFFFFFFFF\n        return checksumadjustment\n\n    def writeMasterChecksum(self):\n        \"\"\"Write checkSumAdjustment to the transformBuffer.\"\"\"", "        checksumadjustment = (0xB1B0AFBA + checksum) & 0xFFFFFFFF\n        return checksumadjustment\n\n    def writeMasterChecksum(self):\n        \"\"\"Write checkSumAdjustment to the transformBuffer.\"\"\"", "F22-hv"))
